@@ -703,16 +703,23 @@ impl MqttClientImpl {
                 self.desired_stop_options = None;
                 self.desired_state = ClientImplState::Connected;
             }
-            OperationOptions::Stop(options) => {
+            OperationOptions::Stop(mut options) => {
 
                 if let Some(disconnect) = &options.disconnect {
-                    debug!("Submitting disconnect operation to protocol state");
-                    let disconnect_context = UserEventContext {
-                        event: UserEvent::Disconnect(disconnect.clone()),
-                        current_time
-                    };
+                    if self.protocol_state.state() == ProtocolStateType::Connected {
+                        debug!("Submitting disconnect operation to protocol state");
+                        let disconnect_context = UserEventContext {
+                            event: UserEvent::Disconnect(disconnect.clone()),
+                            current_time
+                        };
 
-                    self.protocol_state.handle_user_event(disconnect_context);
+                        self.protocol_state.handle_user_event(disconnect_context);
+                    } else {
+                        // no established MQTT connection to send a DISCONNECT on: the protocol state would
+                        // reject the packet and waiting for it to be flushed would never end
+                        debug!("No established connection; stopping without a disconnect packet");
+                        options.disconnect = None;
+                    }
                 }
 
                 debug!("Updating desired state to Stopped");
